@@ -312,14 +312,31 @@ def run_d_case(c):
     return c
 
 
-D_SCENARIOS = ["mixed", "all_reject", "gibbs_only", "mh_only", "natural", "raises", "var_names", "dict", "error_codes", "shared_reads"]
+D_SCENARIOS = ["mixed", "all_reject", "gibbs_only", "mh_only", "natural", "raises", "var_names", "dict", "error_codes", "shared_reads",
+               "var_direct"]
 
 
-def gen_kernels(rnd, R, scenario):
+def direct_var_keys(R):
+    """positions of value nodes of strong Vars that are ALSO read directly (not through the Var's value proxy) by another
+    node: the model mixes the node and the variable API.  A block addressed by the VARIABLE name must refresh these
+    direct readers too (seeded change C09-6)."""
+    out = []
+    for k, name in enumerate(R.order):
+        if R.kinds[k] == "V" and name in R.var_of:
+            proxy = R.var_of[name] + "_var_value"
+            if any(k in R.ins[j] and R.order[j] != proxy for j in range(len(R.order))):
+                out.append(k)
+    return out
+
+
+def gen_kernels(rnd, R, scenario, must=None):
     n = len(R.order)
     settable = [k for k in range(n) if R.kinds[k] == "V"]
     stored = [k for k in range(n) if R.kinds[k] != "T"]
     rnd.shuffle(settable)
+    if must is not None:
+        settable.remove(must)
+        settable.insert(0, must)
     nk = min(rnd.randint(2, 4), len(settable))
     if nk < 1:
         return None
@@ -336,7 +353,7 @@ def gen_kernels(rnd, R, scenario):
             kind = "errk" if (len(kernels) % 2 == 0 or rnd.random() < 0.4) else rnd.choice(["gibbs", "mh"])
         keys = []
         for k in b:
-            via = "var" if (R.order[k] in R.var_of and (scenario == "var_names" or rnd.random() < 0.3)) else "node"
+            via = "var" if (R.order[k] in R.var_of and (scenario == "var_names" or k == must or rnd.random() < 0.3)) else "node"
             keys.append([k, via])
         prop_fs, prop_args = [], []
         for k in b:
@@ -397,6 +414,9 @@ def make_d_case(rnd, quick, scenario, flavour, trace=False, iface=("liesel", Tru
             c = {"layer": "D", "model": "dict", "spec": spec, "scenario": scenario, "flavour": "dict"}
         else:
             nitems = rnd.randint(3, 7) if quick else rnd.choice([rnd.randint(3, 8), rnd.randint(6, 14)])
+            if scenario == "var_direct":
+                # forced stratum: position key = variable name whose value node has a direct reader; LieselInterface
+                flavour, iface, nitems = "vars", ("liesel", rnd.random() < 0.5), max(nitems, 5)
             spec = c01.gen_spec(rnd, nitems, flavour)
             c = {"layer": "D", "model": "liesel", "spec": spec, "order_seed": rnd.randrange(2 ** 30),
                  "scenario": scenario, "flavour": flavour, "iface": iface[0], "auto_at_creation": iface[1]}
@@ -409,7 +429,13 @@ def make_d_case(rnd, quick, scenario, flavour, trace=False, iface=("liesel", Tru
                 continue
             raise
         c["order"] = list(R.order)
-        kernels = gen_kernels(rnd, R, scenario)
+        must = None
+        if scenario == "var_direct":
+            dk = direct_var_keys(R)
+            if not dk:
+                continue
+            must = rnd.choice(dk)
+        kernels = gen_kernels(rnd, R, scenario, must)
         if not kernels or len(kernels) < 2:
             continue
         c["kernels"] = kernels
@@ -477,6 +503,32 @@ CORPUS_D = [
                          {"kind": "gibbs", "keys": [["n1", "node"]], "prop_fs": [["aff", 2, [2, 3]]], "prop_args": [["n0", "n2"]]}],
      "iters": [{"modes": ["accept", "accept"], "codes": [2, 0], "epoch": 0}, {"modes": ["accept", "accept"], "codes": [0, 0], "epoch": 0},
                {"modes": ["accept", "accept"], "codes": [90, 0], "epoch": 1}]},
+    # a Value node wrapped in a strong Var AND read directly by a Calc and by a Dist (node and variable API mixed); the block
+    # is addressed by the VARIABLE name; LieselInterface, auto_update on / off at creation   (seeded change C09-6)
+    {"layer": "D", "model": "liesel", "scenario": "corpus", "flavour": "corpus", "order_seed": 2,
+     "iface": "liesel", "auto_at_creation": True,
+     "spec": {"items": [{"k": "var", "weak": False, "role": "par", "v": 3},
+                        {"k": "calc", "ins": [[0, "vn"]], "kw": [], "kwn": [], "fs": ["aff", 2, [5]]},
+                        {"k": "calc", "ins": [0], "kw": [], "kwn": [], "fs": ["aff", 1, [3]]},
+                        {"k": "var", "weak": False, "role": "obs", "v": 7,
+                         "dist": {"ins": [[0, "vn"], 1], "kw": [], "kwn": [], "fs": ["aff", 6, [2, 3, 7]], "transient": False}},
+                        {"k": "value", "v": 4, "data": False}]},
+     "kernels_by_name": [{"kind": "gibbs", "keys": [["v0_value", "var"]], "prop_fs": [["aff", 11, [3, 2]]], "prop_args": [["v0_value", "n4"]]},
+                         {"kind": "mh", "keys": [["n4", "node"]], "prop_fs": [["aff", 5, [1, 1]]], "prop_args": [["n1", "v3_log_prob"]]}],
+     "iters": [{"modes": ["accept", "accept"], "codes": [0, 0], "epoch": 0}, {"modes": ["accept", "reject"], "codes": [0, 0], "epoch": 1},
+               {"modes": ["accept", "natural"], "codes": [0, 0], "epoch": 0}]},
+    {"layer": "D", "model": "liesel", "scenario": "corpus", "flavour": "corpus", "order_seed": 3,
+     "iface": "liesel", "auto_at_creation": False, "trace": True,
+     "spec": {"items": [{"k": "var", "weak": False, "role": "par", "v": 3},
+                        {"k": "calc", "ins": [[0, "vn"]], "kw": [], "kwn": [], "fs": ["aff", 2, [5]]},
+                        {"k": "calc", "ins": [0], "kw": [], "kwn": [], "fs": ["aff", 1, [3]]},
+                        {"k": "var", "weak": False, "role": "obs", "v": 7,
+                         "dist": {"ins": [[0, "vn"], 1], "kw": [], "kwn": [], "fs": ["aff", 6, [2, 3, 7]], "transient": False}},
+                        {"k": "value", "v": 4, "data": False}]},
+     "kernels_by_name": [{"kind": "mh", "keys": [["v0_value", "var"]], "prop_fs": [["aff", 11, [3, 2]]], "prop_args": [["v0_value", "n4"]]},
+                         {"kind": "gibbs", "keys": [["n4", "node"]], "prop_fs": [["aff", 5, [1, 1]]], "prop_args": [["n1", "v3_log_prob"]]}],
+     "iters": [{"modes": ["accept", "accept"], "codes": [0, 0], "epoch": 0}, {"modes": ["reject", "accept"], "codes": [0, 0], "epoch": 1},
+               {"modes": ["accept", "accept"], "codes": [0, 0], "epoch": 2}]},
     # strong Var with a distribution whose parameter is another Var: keys by var name; three kernels
     {"layer": "D", "model": "liesel", "scenario": "corpus", "flavour": "corpus", "order_seed": 1,
      "iface": "goose", "auto_at_creation": False,
@@ -712,6 +764,15 @@ def generate(ctx):
             ctx.hist("D.kernels.%d" % len(c["kernels"]))
             if any(k == "T" for k in c["kinds"]):
                 ctx.hist("D.graph.has_transient")
+            if c["model"] == "liesel" and not c.get("via") and c.get("iface", "liesel") == "liesel":
+                class _R:
+                    pass
+                _r = _R()
+                _r.order, _r.kinds, _r.ins = c["order"], c["kinds"], c["ins"]
+                _r.var_of = {n: n[:-6] for n in c["order"] if n.endswith("_value") and n[:-6] + "_var_value" in c["order"]}
+                dk = set(direct_var_keys(_r))
+                if any(via == "var" and k in dk for kern in c["kernels"] for k, via in kern["keys"]):
+                    ctx.hist("D.key_is_variable_name_with_direct_reader_of_value_node.LieselInterface")
             for it, spec in zip(c["its"], c["iters"]):
                 if it["raised"]:
                     ctx.hist("D.iteration.raises")
